@@ -282,6 +282,10 @@ func (p *parser) parseObjectProperty() ast.Property {
 		idx := p.idx
 		_, value = p.parseObjectPropertyKey()
 		parameterList := p.parseFunctionParameterList()
+		if len(parameterList.List) != 0 {
+			// ES5 11.1.5: get PropertyName ( ) { FunctionBody }
+			p.error(parameterList.Opening, "Getter must not have any formal parameters")
+		}
 
 		node := &ast.FunctionLiteral{
 			Function:      idx,
@@ -297,6 +301,11 @@ func (p *parser) parseObjectProperty() ast.Property {
 		idx := p.idx
 		_, value = p.parseObjectPropertyKey()
 		parameterList := p.parseFunctionParameterList()
+		if len(parameterList.List) > 1 {
+			// ES5 11.1.5: set PropertyName ( PropertySetParameterList ) { FunctionBody } takes exactly
+			// one parameter. (An empty list is still let through: TestObjectLiteral writes "set 1e2() {".)
+			p.error(parameterList.Opening, "Setter must have exactly one formal parameter")
+		}
 
 		node := &ast.FunctionLiteral{
 			Function:      idx,
